@@ -883,3 +883,108 @@ Proof.
   rewrite (nth_upd_same _ _ _ _ NP) in A. split; [exact A|].
   unfold cview in B. rewrite NC in B. exact B.
 Qed.
+
+(** * 5. The upload section of a PUT as the sequence of its OS calls *)
+Section UploadProg.
+  Variables (root : path) (sb : option node) (dir : path) (tmp name : string) (st : N).
+  Hypothesis Hdir : is_dir (geto sb (root ++ dir)) = true.
+  Hypothesis Hfresh : geto sb ((root ++ dir) ++ [tmp]) = None.
+
+  Let adir := root ++ dir.
+  Let tmpA := u_tmp adir tmp.
+
+  Lemma tmp_path : root ++ dir ++ [tmp] = tmpA.
+  Proof. unfold tmpA, u_tmp, adir. apply app_assoc. Qed.
+
+  Lemma write_steps_exec (k : tprog act result bool) : forall chunks acc s,
+    with_tmp sb adir tmp st acc s ->
+    exists e, with_tmp sb adir tmp st (acc ++ concat_str chunks)%string e /\
+              exec_prog root (write_steps (dir ++ [tmp]) st acc chunks k) s = exec_prog root k e.
+  Proof.
+    induction chunks as [|c r IH]; intros acc s Hs.
+    - exists s. cbn. rewrite str_app_empty_r. auto.
+    - cbn [write_steps exec_prog act_step concat_str]. rewrite tmp_path.
+      pose proof (write_with_tmp sb adir tmp name st Hdir Hfresh acc (acc ++ c)%string s Hs) as Hw.
+      unfold u_write in Hw. destruct Hs as (t & -> & Ht). fold tmpA in Hw.
+      destruct Hw as (t' & E' & Ht'). rewrite E'. cbn [fst snd].
+      destruct (IH (acc ++ c)%string (Some t')) as (e & He & Hx).
+      { exists t'. auto. }
+      exists e. rewrite <- str_app_assoc. auto.
+  Qed.
+
+  (** Run alone, with a temporary name that is free in the target's directory, the
+      OS-call program of the upload ends in the sandbox in which the whole body is
+      mapped at the target — the step [do_put] takes (UploadStepsProofs.put_is_upload). *)
+  Theorem upload_prog_exec chunks :
+    exists t, seto sb (u_tgt adir name) (File (concat_str chunks) st) = Some t /\
+              exec_prog root (upload_prog dir tmp name st chunks) sb = (Some t, true).
+  Proof.
+    unfold upload_prog. cbn [exec_prog act_step]. rewrite tmp_path.
+    pose proof (create_with_tmp sb adir tmp name st Hdir Hfresh) as Hc. unfold u_create in Hc. fold tmpA in Hc.
+    destruct Hc as (t0 & E0 & H0). rewrite E0. cbn [fst snd].
+    destruct (write_steps_exec
+                (TCall (AGet (dir ++ [tmp])) (fun b =>
+                   match b with
+                   | RNode (Some f) =>
+                     TCall (ARem (dir ++ [tmp])) (fun _ => TCall (ASet (dir ++ [name]) f) (fun b2 =>
+                       match b2 with RDone ok => TRet ok | _ => TRet false end))
+                   | _ => TRet false
+                   end))
+                chunks ""%string (Some t0)) as (e & He & Hx).
+    { exists t0. auto. }
+    rewrite Hx. cbn [exec_prog act_step fst snd]. rewrite tmp_path.
+    pose proof (with_tmp_without sb adir tmp name st Hdir Hfresh _ _ He) as Hr. fold tmpA in Hr.
+    destruct He as (t1 & -> & Ht1). pose proof (geto_seto_self _ _ _ _ Ht1) as G. fold tmpA in G. rewrite G.
+    cbn [exec_prog act_step fst snd]. rewrite tmp_path, Hr.
+    assert (TG : root ++ dir ++ [name] = u_tgt adir name) by (unfold u_tgt, adir; apply app_assoc).
+    rewrite TG.
+    destruct (seto_ok (u_tgt adir name) sb (File (concat_str chunks) st)) as [t Ht].
+    { unfold u_tgt. destruct adir; discriminate. }
+    { unfold u_tgt. rewrite removelast_last. exact Hdir. }
+    cbn [append]. rewrite Ht. exists t. auto.
+  Qed.
+End UploadProg.
+
+Lemma write_steps_owned colls i c p st (k : tprog act result bool) :
+  nth_error colls i = Some c -> nonempty_below c p = true -> cowned colls bool i k ->
+  forall chunks acc, cowned colls bool i (write_steps p st acc chunks k).
+Proof.
+  intros N B K. induction chunks as [|x r IH]; intro acc; cbn; [exact K|].
+  split; [exists c; auto|]. intros _. apply IH.
+Qed.
+
+(** every OS call of the upload belongs to the client whose collection contains the target *)
+Lemma upload_prog_owned colls i c d tmp name st chunks :
+  nth_error colls i = Some c ->
+  cowned colls bool i (upload_prog (c ++ d) tmp name st chunks).
+Proof.
+  intros N.
+  assert (B : forall x, nonempty_below c ((c ++ d) ++ [x]) = true).
+  { intro x. unfold nonempty_below. rewrite <- app_assoc. rewrite strip_prefix_app. destruct d; reflexivity. }
+  assert (P : forall x, is_prefix c ((c ++ d) ++ [x]) = true).
+  { intro x. rewrite <- app_assoc. apply is_prefix_app. }
+  unfold upload_prog. cbn. split; [exists c; split; [exact N|apply B]|]. intros _.
+  apply (write_steps_owned colls i c); auto. cbn.
+  split; [exists c; split; [exact N|apply P]|].
+  intros [| [f|] | |]; cbn; auto.
+  split; [exists c; split; [exact N|apply B]|]. intros _.
+  split; [exists c; split; [exact N|apply B]|]. intros [| | |]; cbn; auto.
+Qed.
+
+(** ... and run alone it takes the sandbox to where the one step [do_put] takes it *)
+Theorem upload_prog_is_put root sb r segs tmp chunks :
+  segs_of (rpath r) = GOk segs ->
+  req_cond r (match geto sb (hp root segs) with Some n => fi_etag (fi_of (dir_tag r) n) | None => ""%string end) = None ->
+  is_dir (geto sb (hp root segs)) = false -> segs <> [] ->
+  is_dir (geto sb (hp root (parent segs))) = true ->
+  geto sb (hp root (parent segs) ++ [tmp]) = None ->
+  body_fails r = false -> concat_str chunks = body r ->
+  fst (exec_prog root (upload_prog (parent segs) tmp (last segs ""%string) (stamp r) chunks) sb) = fst (do_put root sb r).
+Proof.
+  intros Hsegs Hcond Hnd Hne Hpar Hfresh Hnf Hbody.
+  destruct (upload_prog_exec root sb (parent segs) tmp (last segs ""%string) (stamp r) Hpar Hfresh chunks) as (t & Ht & Hx).
+  rewrite Hx. cbn [fst].
+  rewrite <- (put_is_upload root sb r segs tmp chunks Hsegs Hcond Hnd Hne Hpar Hfresh (fun _ => Hbody)).
+  rewrite Hnf. rewrite (upload_commit_is_put sb (hp root (parent segs)) tmp (last segs ""%string) (stamp r) Hpar Hfresh chunks).
+  symmetry. exact Ht.
+Qed.
